@@ -28,7 +28,9 @@ def build(rnd, tier, flags):
         meta["n_comments"] = len(lay.comments)
     else:
         src = gen.canonical_source(flat, indent=True)
-    case = {"src": src, "std": std, "ignore_comments": not keep, "meta": meta}
+    case = {"src": src, "std": std, "ignore_comments": not keep, "meta": meta,
+            "process_directives": False}   # not one of C01's configurations: a trailing directive-like comment is
+    # printed on its own line and (correctly) becomes a Directive when that text is parsed again
     return case, progs.excluded_counts(g)
 
 
@@ -41,7 +43,10 @@ def evaluate(case):
         labels.append("uses_f2008")
     if meta.get("n_units", 0) > 1:
         labels.append("multi_unit")
-    o = guarded_parse(src, std=std, ignore_comments=ign, want_str=True)
+    kw = {"process_directives": True} if case.get("process_directives") else {}
+    if kw:
+        labels.append("process_directives")
+    o = guarded_parse(src, std=std, ignore_comments=ign, want_str=True, **kw)
     if o.kind != "tree" or o.tree is None:
         ln, q = progs.syntax_error_line(o.text)
         return Result(False, "reject:%s:%s" % (o.kind if o.kind != "syntax" else "syntax", progs.first_word(q or "") or o.where),
@@ -49,7 +54,7 @@ def evaluate(case):
     s1 = o.text
     c1 = canon(o.tree)
     classes = class_names(o.tree)
-    o2 = guarded_parse(s1, std=std, ignore_comments=ign, want_str=True)
+    o2 = guarded_parse(s1, std=std, ignore_comments=ign, want_str=True, **kw)
     if o2.kind != "tree" or o2.tree is None:
         ln, q = progs.syntax_error_line(o2.text)
         return Result(False, "reparse-reject:%s:%s" % (o2.kind, progs.first_word(q or "") or o2.where), nontrivial, labels,
